@@ -9,6 +9,7 @@ package main
 import (
 	"fmt"
 	"go/types"
+	"strings"
 
 	"golang.org/x/tools/go/ssa"
 )
@@ -160,13 +161,17 @@ func checkC06(w *World, c *Check) {
 	defaultVisit := externals["(*fastjson.Object).Visit"]
 	defer func() { externals["(*fastjson.Object).Visit"] = defaultVisit }()
 
-	for _, shape := range []string{"single-untagged", "single-tagged", "map-of-two"} {
+	shapes := []string{"single-untagged", "single-tagged", "map-of-two"}
+	if c.Tier == "thorough" {
+		shapes = append(shapes, "map-of-three")
+	}
+	for _, shape := range shapes {
 		shape := shape
 		grp := "C06/json/" + shape
 		guard(c, grp, func() {
 			defer func() { externals["(*fastjson.Object).Visit"] = defaultVisit }()
-			x0, x1 := Var("text0", SBytes), Var("text1", SBytes)
-			t0, t1 := Var("tag0", SStr), Var("tag1", SStr)
+			x0, x1, x2 := Var("text0", SBytes), Var("text1", SBytes), Var("text2", SBytes)
+			t0, t1, t2 := Var("tag0", SStr), Var("tag1", SStr), Var("tag2", SStr)
 			var ents [][2]*Term
 			var hyps []*Term
 			switch shape {
@@ -176,6 +181,10 @@ func checkC06(w *World, c *Check) {
 			case "single-tagged":
 				ents = [][2]*Term{{t0, x0}}
 				hyps = []*Term{Gt(BLen(x0), IntLit(0)), Gt(SLen(t0), IntLit(0)), Neq(t0, StrLit("-"))}
+			case "map-of-three":
+				ents = [][2]*Term{{t0, x0}, {t1, x1}, {t2, x2}}
+				hyps = []*Term{Gt(BLen(x0), IntLit(0)), Gt(BLen(x1), IntLit(0)), Gt(BLen(x2), IntLit(0)), Gt(SLen(t0), IntLit(0)), Gt(SLen(t1), IntLit(0)), Gt(SLen(t2), IntLit(0)),
+					Neq(t0, t1), Neq(t0, t2), Neq(t1, t2), Neq(t0, StrLit("-")), Neq(t1, StrLit("-")), Neq(t2, StrLit("-"))}
 			default:
 				ents = [][2]*Term{{t0, x0}, {t1, x1}}
 				hyps = []*Term{Gt(BLen(x0), IntLit(0)), Gt(BLen(x1), IntLit(0)), Gt(SLen(t0), IntLit(0)), Gt(SLen(t1), IntLit(0)), Neq(t0, t1), Neq(t0, StrLit("-")), Neq(t1, StrLit("-"))}
@@ -214,7 +223,7 @@ func checkC06(w *World, c *Check) {
 					continue
 				}
 				c.Add(&Obligation{Name: fmt.Sprintf("%s/entry%d/text-identical", grp, k), Group: grp, Common: common, Goal: Eq(el.F[1].(*Term), e[1]), Pos: pos, Funcs: fns, Bounded: boundOf(shape), Replay: c06Replay})
-				if shape == "map-of-two" {
+				if strings.HasPrefix(shape, "map-of-") {
 					c.Add(&Obligation{Name: fmt.Sprintf("%s/entry%d/tag-preserved", grp, k), Group: grp, Common: common, Goal: Eq(el.F[0].(*Term), e[0]), Pos: pos, Funcs: fns, Bounded: boundOf(shape), Replay: c06Replay})
 				}
 			}
@@ -312,8 +321,11 @@ func checkC06(w *World, c *Check) {
 }
 
 func boundOf(shape string) int {
-	if shape == "map-of-two" {
+	switch shape {
+	case "map-of-two":
 		return 2
+	case "map-of-three":
+		return 3
 	}
 	return 0
 }
